@@ -33,8 +33,11 @@ def make_copy(dst):
     subprocess.run(["git", "init", "-q"], cwd=dst)
 
 
+SEED_DIR = "seeded"
+
+
 def evaluate(seed, checks, skip_tests, tier):
-    sdir = os.path.join(HERE, "seeded", seed)
+    sdir = os.path.join(HERE, SEED_DIR, seed)
     meta_path = os.path.join(sdir, "meta.json")
     meta = json.load(open(meta_path)) if os.path.exists(meta_path) else {}
     tmp = tempfile.mkdtemp(prefix="j2m_seed_")
@@ -94,12 +97,15 @@ def main(argv):
             checks = ALL
         elif a == "--tier":
             tier = next(it)
+        elif a == "--dir":
+            global SEED_DIR
+            SEED_DIR = next(it)
         elif a == "--skip-tests":
             pass
         else:
             seeds.append(a)
     for s in seeds:
-        meta_path = os.path.join(HERE, "seeded", s, "meta.json")
+        meta_path = os.path.join(HERE, SEED_DIR, s, "meta.json")
         meta = json.load(open(meta_path)) if os.path.exists(meta_path) else {}
         cs = checks or sorted(set([meta.get("property", s[:3])] + meta.get("also_run", [])))
         res = evaluate(s, cs, skip_tests, tier)
